@@ -313,7 +313,7 @@ func writeReplay(dir, prop string, or *OblResult, note string) string {
 	if or.R.Status != "sat" || !or.Replayed {
 		suffix = " no-failing-input-found"
 	}
-	return fmt.Sprintf("VIOLATION property=%s replay=%s obligation=%s%s", prop, p, or.O.Name, suffix)
+	return fmt.Sprintf("VIOLATION property=%s replay=%s obligation=%s solver=%s%s", prop, p, or.O.Name, or.R.Status, suffix)
 }
 
 
